@@ -95,6 +95,15 @@ func genCase1(t *rapid.T) *Case {
 	case 1, 2:
 		c := genCase0(t)
 		c.NameSet = 1
+		if rapid.IntRange(0, 5).Draw(t, "resplit") == 0 {
+			// steer: the list is replaced by one that reads the same when written with commas ("a,b","c" <-> "a","b,c")
+			from, to := []int{0, 1}, []int{2, 3}
+			if rapid.Bool().Draw(t, "resplitrev") {
+				from, to = to, from
+			}
+			c.Init = from
+			c.Ops = append([]Op{{K: "avail", E: from[rapid.IntRange(0, 1).Draw(t, "rsa")], B: true}, {K: "set", L: to}, {K: "avail", E: to[rapid.IntRange(0, 1).Draw(t, "rsb")], B: true}, {K: "quiesce"}, {K: "set", L: from}, {K: "quiesce"}}, c.Ops...)
+		}
 		return c
 	}
 	return genCase0(t)
@@ -118,6 +127,26 @@ func genCase0(t *rapid.T) *Case {
 	}
 	if rapid.IntRange(0, 4).Draw(t, "editOpts") == 0 {
 		c.EditOpts = rapid.IntRange(1, 4).Draw(t, "editKind")
+	}
+	if rapid.IntRange(0, 19).Draw(t, "addwhileserving") == 0 && len(c.Init) >= 2 && len(c.Init) <= 4 {
+		// steer: a new endpoint is added while the current one is serving; then the current one is removed, the new one comes
+		// first and has not reported yet, a lower one reports: the new endpoint's own recovery window still holds
+		cur, low := c.Init[0], c.Init[1]
+		n := 4
+		for _, x := range c.Init {
+			if x == n {
+				n = 3
+			}
+		}
+		for _, x := range c.Init {
+			if x == n {
+				n = 2
+			}
+		}
+		if c.R <= 0 {
+			c.R = 100
+		}
+		c.Ops = append([]Op{{K: "avail", E: cur, B: true}, {K: "set", L: append(append([]int{}, c.Init...), n)}, {K: "set", L: []int{n, low}}, {K: "avail", E: low, B: true}, {K: "adv", D: 1}}, c.Ops...)
 	}
 	if rapid.IntRange(0, 39).Draw(t, "manydrops") == 0 && len(c.Init) >= 2 {
 		// steer: many delayed switches in a row are overtaken by a reorder (the pending switch is outdated when its timer
